@@ -587,6 +587,53 @@ class SwitchEval:
         return ev.run(self.tree, env), calls
 
 
+    def run_profile(self, op_label, answers, operands='distinct'):
+        """Evaluate the switch with user methods that answer by method name only (answers: method -> 'T' | 'F' | 'N'), for one operand configuration:
+        'distinct' (two objects of the type), 'same' (one object on both sides), 'othertype' (right operand of an unrelated type), 'none' (right operand None).
+        -> (result or ('raised', what), [methods called])."""
+        calls = []
+        A = self.A
+        none = H.CObj('Py_None')
+        B = {'distinct': self.B, 'same': A, 'othertype': self.B, 'none': none}[operands]
+        t_own, t_other, t_none = H.CObj('type(o1)'), H.CObj('type(other)'), H.CObj('NoneType')
+
+        def py_type(o):
+            if o is none:
+                return t_none
+            if o is B and operands == 'othertype':
+                return t_other
+            if o is A or o is B:
+                return t_own
+            raise Raised('generated C takes the type of %r' % (o,))
+
+        def user(method):
+            def f(*args):
+                calls.append(method)
+                if len(args) != 2 or {id(args[0]), id(args[1])} != {id(A), id(B)}:
+                    raise Raised('generated C calls %s with arguments other than the two operands' % method)
+                return {'T': self.TRUE, 'F': self.FALSE, 'N': self.NOTIMPL}[answers[method]]
+            return f
+
+        def istrue(o):
+            if o is self.TRUE:
+                return 1
+            if o is self.FALSE:
+                return 0
+            raise Raised('generated C takes the truth value of %r' % (o,))
+        funcs = {'likely': lambda x: x, 'unlikely': lambda x: x, '__Pyx_PyObject_IsTrue': istrue, '__Pyx_NewRef': lambda x: x,
+                 'Py_DECREF': lambda x: 0, 'Py_INCREF': lambda x: 0, 'Py_XDECREF': lambda x: 0, 'Py_NewRef': lambda x: x, 'Py_TYPE': py_type,
+                 'Py_IS_TYPE': lambda o, t: int(py_type(o) is t), 'Py_Is': lambda a, b: int(a is b), 'Py_IsNone': lambda a: int(a is none)}
+        for meth in TRUTH:
+            funcs[cname_of(meth)] = user(meth)
+        consts = {'Py_True': self.TRUE, 'Py_False': self.FALSE, 'Py_NotImplemented': self.NOTIMPL, 'NULL': 0, 'Py_None': none}
+        consts.update(self.labels)
+        env = {self.params[0]: A, self.params[1]: B, self.params[2]: self.labels[op_label]}
+        try:
+            return H.CEval(consts, funcs).run(self.tree, env), calls
+        except Raised as e:
+            return ('raised', e.what), calls
+
+
 def expected_ops(defined, total_ordering):
     """ops the equivalent Python class handles itself (others return NotImplemented)."""
     a = set(defined)
@@ -689,7 +736,8 @@ BAD_SWITCH = ['switch (op) {', 'case Py_LT: {', 'return user_lt(o1, o2);', '}', 
               'case Py_EQ: {', 'return user_eq(o1, o2);', '}', 'default: {', 'return __Pyx_NewRef(Py_NotImplemented);', '}', '}', '}']
 
 
-def rule_TO(ctx):
+def rule_TO(ctx, collect=None):
+    """collect: optional list that receives (scenario text, defined methods, total_ordering, SwitchEval) of every scenario evaluated (read by s7C28)."""
     ix = ctx.index
     mn = ix.mod('Compiler.ModuleNode')
     rel = mn.rel
@@ -756,6 +804,8 @@ def rule_TO(ctx):
             raise AnalysisError('C emitted by generate_richcmp_function for %s is outside the modelled subset: %s' % (sc, e))
         for meth in methods:
             r.inst('richcmp:%s:%s' % (sc, meth), sample='%s: case %s' % (sc, H.RICHCMP[meth]))
+        if collect is not None:
+            collect.append((sc, defined, to, sw))
         for key, msg in probs:
             seen.setdefault(key, msg)
     for key, msg in sorted(seen.items()):
@@ -953,4 +1003,7 @@ def rule_TPL(ctx, ext):
 def run(ctx):
     ext = extract_tables(ctx)
     from ..rules import sC28
-    return [rule_ORD(ctx, ext), rule_DUN(ctx, ext), rule_SIG(ctx, ext), rule_TO(ctx), rule_TPL(ctx, ext), sC28.rule_dispatch(ctx), sC28.rule_same_type(ctx), sC28.rule_gen(ctx)]
+    from ..rules import s7C28
+    switches = []
+    return [rule_ORD(ctx, ext), rule_DUN(ctx, ext), rule_SIG(ctx, ext), rule_TO(ctx, switches), rule_TPL(ctx, ext), sC28.rule_dispatch(ctx), sC28.rule_same_type(ctx), sC28.rule_gen(ctx),
+            s7C28.rule_operands(ctx, switches)]
